@@ -113,6 +113,16 @@ def run_job(job, rec):
             rec.count("cases:batched_d>=2")
         qa = q if rng.random() < 0.7 else [[float(v) for v in row] for row in q]
 
+        if c % 3 == 0:
+            # integer-typed query points (a lattice) are legitimate points: same answers as the same values as floats
+            qi = np.round(q / L * 3).astype(int)
+            if np.all(np.abs(qi) < 10**6):
+                ga, gb = guarded(gp.gradient, qi), guarded(gp.gradient, qi.astype(float))
+                sa, sb = guarded(gp.spatial_derivatives, qi), guarded(gp.spatial_derivatives, qi.astype(float))
+                rec.count("integer_query_cases")
+                okd = not any(isinstance(v, Raised) for v in (ga, gb, sa, sb)) and all(np.allclose(u, v, rtol=1e-12, atol=0) for u, v in zip(ga + sa, gb + sb))
+                rec.check(okd, "depends-on-dtype-of-points",
+                          lambda: f"integer-typed query points give {ga!r} / {sa!r}, the same points as floats give {gb!r} / {sb!r}", rec.context)
         out_g = guarded(gp.gradient, qa)
         out_s = guarded(gp.spatial_derivatives, qa)
         if isinstance(out_g, Raised) or isinstance(out_s, Raised):
